@@ -51,22 +51,9 @@ func init() {
 	})
 	reg("strings.Index", true, func(v *FnV, st *State, call *ast.CallExpr, recv *Value, args []Value) []Value {
 		s, t := args[0].S, args[1].S
-		r := st.freshVal("idx", tInt)
-		n, m := sx("slen", s), sx("slen", t)
-		st.assume(sAnd(sLe("(- 1)", r.S), sLe(sAdd(r.S, m), sOr2Max(n, m, r.S))))
-		st.assume(sImp(sGe(r.S, "0"), sLe(sAdd(r.S, m), n)))
-		if lit, ok := v.litContent(t); ok && len(lit) <= 8 {
-			match := func(k string) string {
-				var ps []string
-				for i := 0; i < len(lit); i++ {
-					ps = append(ps, sEq(sx("sat", s, sAdd(k, fmt.Sprint(i))), fmt.Sprint(int(lit[i]))))
-				}
-				return sAnd(ps...)
-			}
-			st.assume(sImp(sGe(r.S, "0"), match(r.S)))
-			st.assume(fmt.Sprintf("(forall ((k!i Int)) (! (=> (and (<= 0 k!i) (<= (+ k!i %d) %s) (or (< %s 0) (< k!i %s))) (not %s)) :pattern ((sat %s k!i))))",
-				len(lit), n, r.S, r.S, match("k!i"), s))
-		}
+		v.c.glob("sindex", "(declare-fun sindex (Str Str) Int)")
+		r := Value{T: tInt, S: sx("sindex", s, t)}
+		st.assume(v.c.sindexFacts(v, s, t))
 		return []Value{r}
 	})
 	reg("strings.Contains", true, func(v *FnV, st *State, call *ast.CallExpr, recv *Value, args []Value) []Value {
@@ -108,6 +95,26 @@ func init() {
 	reg("fmt.Sprint", true, func(v *FnV, st *State, call *ast.CallExpr, recv *Value, args []Value) []Value {
 		return []Value{st.freshVal("sprint", tString)}
 	})
+}
+
+// sindexFacts: sindex(s,t) is the first occurrence of t in s, or -1.
+func (c *Ctx) sindexFacts(v *FnV, s, t string) string {
+	r := sx("sindex", s, t)
+	n, m := sx("slen", s), sx("slen", t)
+	facts := []string{sLe("(- 1)", r), sImp(sGe(r, "0"), sLe(sAdd(r, m), n))}
+	if lit, ok := v.litContent(t); ok && len(lit) <= 8 {
+		match := func(k string) string {
+			var ps []string
+			for i := 0; i < len(lit); i++ {
+				ps = append(ps, sEq(sx("sat", s, sAdd(k, fmt.Sprint(i))), fmt.Sprint(int(lit[i]))))
+			}
+			return sAnd(ps...)
+		}
+		facts = append(facts, sImp(sGe(r, "0"), match(r)))
+		facts = append(facts, fmt.Sprintf("(forall ((k!i Int)) (! (=> (and (<= 0 k!i) (<= (+ k!i %d) %s) (or (< %s 0) (< k!i %s))) (not %s)) :pattern ((sat %s k!i))))",
+			len(lit), n, r, r, match("k!i"), s))
+	}
+	return sAnd(facts...)
 }
 
 func sOr2Max(n, m, r string) string {
@@ -176,6 +183,13 @@ func (c *Ctx) utf8Fns() {
         (=> (and (< p hi) (>= c 128)) (and (<= 128 r) (<= r 1114111) (not (surrogate r))))
         (=> (and (= z 1) (>= c 128)) (= r 65533))
         (=> (>= z 2) (= z (rl r)))
+        (=> (= z 2) (and (<= 194 c) (<= c 223) (<= 128 (select b (+ p 1))) (<= (select b (+ p 1)) 191)
+                         (= r (+ (* (- c 192) 64) (- (select b (+ p 1)) 128)))))
+        (=> (= z 3) (and (<= 224 c) (<= c 239) (<= 128 (select b (+ p 1))) (<= (select b (+ p 1)) 191) (<= 128 (select b (+ p 2))) (<= (select b (+ p 2)) 191)
+                         (= r (+ (* (- c 224) 4096) (* (- (select b (+ p 1)) 128) 64) (- (select b (+ p 2)) 128)))))
+        (=> (= z 4) (and (<= 240 c) (<= c 244) (<= 128 (select b (+ p 1))) (<= (select b (+ p 1)) 191) (<= 128 (select b (+ p 2))) (<= (select b (+ p 2)) 191)
+                         (<= 128 (select b (+ p 3))) (<= (select b (+ p 3)) 191)
+                         (= r (+ (* (- c 240) 262144) (* (- (select b (+ p 1)) 128) 4096) (* (- (select b (+ p 2)) 128) 64) (- (select b (+ p 3)) 128)))))
         (<= 0 c) (<= c 255))))`,
 		`(define-fun utf8lastok ((b (Array Int Int)) (lo Int) (p Int)) Bool
   (let ((r (lr3 b lo p)) (z (lz3 b lo p)) (c (select b (- p 1))))
@@ -183,7 +197,14 @@ func (c *Ctx) utf8Fns() {
         (=> (> p lo) (and (<= 1 z) (<= z 4) (<= lo (- p z))))
         (=> (and (> p lo) (<= 0 c) (< c 128)) (and (= r c) (= z 1)))
         (=> (and (> p lo) (>= c 128)) (and (<= 128 r) (<= r 1114111) (not (surrogate r))))
-        (=> (>= z 2) (= z (rl r))))))`,
+        (=> (>= z 2) (= z (rl r)))
+        (=> (= z 2) (and (<= 194 (select b (- p 2))) (<= (select b (- p 2)) 223) (<= 128 c) (<= c 191)
+                         (= r (+ (* (- (select b (- p 2)) 192) 64) (- c 128)))))
+        (=> (= z 3) (and (<= 224 (select b (- p 3))) (<= (select b (- p 3)) 239) (<= 128 (select b (- p 2))) (<= (select b (- p 2)) 191) (<= 128 c) (<= c 191)
+                         (= r (+ (* (- (select b (- p 3)) 224) 4096) (* (- (select b (- p 2)) 128) 64) (- c 128)))))
+        (=> (= z 4) (and (<= 240 (select b (- p 4))) (<= (select b (- p 4)) 244) (<= 128 (select b (- p 3))) (<= (select b (- p 3)) 191)
+                         (<= 128 (select b (- p 2))) (<= (select b (- p 2)) 191) (<= 128 c) (<= c 191)
+                         (= r (+ (* (- (select b (- p 4)) 240) 262144) (* (- (select b (- p 3)) 128) 4096) (* (- (select b (- p 2)) 128) 64) (- c 128))))))))`,
 	)
 }
 
